@@ -57,7 +57,7 @@ Section Sim.
     inversion Rp as [f0 p0|f0 p0 v0|f0 p0 h G0 e SF W EN Hh HB C U|f0 p0 k c c' Rc CO|f0 p0 cs cs' HL Rcs CO]; subst.
     - cbn in E. inversion E; subst. split; [constructor|constructor].
     - cbn in E. inversion E; subst. split; [constructor|constructor].
-    - destruct (C p G (gsub_here H f p G e SF EN HB)) as (e' & E' & RS).
+    - destruct (proj1 C p G (gsub_here H f p G e SF EN HB)) as (e' & E' & RS).
       rewrite EN in E'. inversion E'; subst e'.
       cbn [get] in E. rewrite RS in E.
       destruct (get R fuel (collapse H G) p key) as [[[[v1 n1] d1] ev1]|er] eqn:GE; [|discriminate].
@@ -180,7 +180,7 @@ Section Sim.
         + split; [discriminate|]. intros [|fu'] L; [cbn in L; lia|]. eexists. split; reflexivity.
       - inversion Wn.
       - (* hash node *)
-        destruct (C p G (gsub_here H f p G e SF EN HB)) as (e' & E' & RS).
+        destruct (proj1 C p G (gsub_here H f p G e SF EN HB)) as (e' & E' & RS).
         rewrite EN in E'. inversion E'; subst e'.
         cbn [insert] in E. rewrite RS in E.
         destruct (insert R fu (collapse H G) p (k0 :: kr) (NValue v)) as [[[d1 n1] ev1]|er] eqn:IE; [|discriminate].
@@ -363,7 +363,10 @@ End SessGet.
 
 (* the empty database holds the empty trie: base case of the generation induction *)
 Lemma store_ok_empty H : store_ok H [] (H empty_root_preimage) NEmpty.
-Proof. split; [left; reflexivity|reflexivity]. Qed.
+Proof.
+  split; [left; reflexivity|]. split; [|reflexivity].
+  intros q _ (h & n & b & X). cbn in X. discriminate.
+Qed.
 
 (* insert emits only onInsert and resolution events *)
 Lemma insert_ev_all R (P : tev -> Prop) :
@@ -435,9 +438,11 @@ Section SessInsert.
     exists F' d ev,
       s_tr ss' = trace_evs (s_tr ss) ev /\
       rep H (resolve_of H PathScheme S) (dirty_at ss') (delp_of (s_tr ss')) true [] (s_root ss') F' /\
-      forall fu', (length (keybytes_to_hex key) < fu')%nat ->
+      (forall fu', (length (keybytes_to_hex key) < fu')%nat ->
         exists ev', insert (resolve_of H PathScheme S) fu' F [] (keybytes_to_hex key) (NValue (x :: v)) =
-                    TOk (d, F', ev') /\ nores ev' = nores ev.
+                    TOk (d, F', ev') /\ nores ev' = nores ev) /\
+      insert (resolve_of H PathScheme S) (ops_fuel (keybytes_to_hex key)) (s_root ss) []
+             (keybytes_to_hex key) (NValue (x :: v)) = TOk (d, s_root ss', ev).
   Proof.
     intros [GO Rp] BK E. unfold sess_update in E.
     set (k := keybytes_to_hex key) in *.
@@ -469,7 +474,7 @@ Section SessInsert.
     destruct (insert_rep H H_len (resolve_of H PathScheme S) (dirty_at ss) (dirty_at ss')
                 (delp_of (s_tr ss)) (delp_of (s_tr ss')) DM DPM
                 _ _ _ _ _ _ _ _ _ _ IE Rp Wp DK DI) as (F' & X1 & _ & X3).
-    exists F', d, ev. split; [reflexivity|]. split; [exact X1|exact X3].
+    exists F', d, ev. split; [reflexivity|]. split; [exact X1|]. split; [exact X3|first [exact IE|reflexivity]].
   Qed.
 End SessInsert.
 
@@ -498,7 +503,7 @@ Section SimGetNode.
       + (* hash node *)
         destruct rest as [|r0 rr].
         * repeat (dmatch E; try (inversion E; subst; split; [constructor|intros _; exact Rp])).
-        * destruct (C p G (gsub_here H f p G e SF EN HB)) as (e' & E' & RS).
+        * destruct (proj1 C p G (gsub_here H f p G e SF EN HB)) as (e' & E' & RS).
           rewrite EN in E'. inversion E'; subst e'. rewrite RS in E.
           destruct (getnode H fu sc S dirty0 (collapse H G) p (r0 :: rr)) as [[[g1 c1] r1] ev1] eqn:GE.
           inversion E; subst.
